@@ -68,15 +68,36 @@ def rule_criteria(ctx, rid):
                     ('cmp', '>=', ('sub', ph, C(-1)), ('bin', '-', twopi, edge)))),
     }
     names = {0: 'phase strictly increasing', 1: 'start within [0, phase_edge]', 2: 'end within [2pi - phase_edge, 2pi]'}
+    # slot values on the evaluated paths: a check may also be written as a direct assignment of a boolean expression
+    def slots(e):
+        t = e.value
+        vals = {}
+        while t[0] == 'setitem':
+            if is_c(t[2]) and t[2][1] not in vals:
+                vals[t[2][1]] = t[3]
+            t = t[1]
+        return vals
+    direct = {}
+    for k in (0, 1, 2):
+        vs = {slots(e).get(k, C(False)) for e in rets}
+        if len(vs) == 1 and not is_c(next(iter(vs))):
+            direct[k] = next(iter(vs))
     for k in (0, 1, 2):
         c = 'check %d: %s' % (k, names[k])
         gs = guards.get(k, [])
-        if len(gs) != 1:
-            ctx.violation(rid, fi, c, 'check %d is set true at %d sites (expected one guarded assignment)' % (k, len(gs)))
+        if k in direct:
+            t = direct[k]
+            node = fi.node
+        elif len(gs) == 1:
+            test = gs[0].test
+            outs = ev._ev(test, st.copy(), fi.module, fi, 0)
+            t = outs[0][0]
+            node = gs[0]
+        else:
+            ctx.undecided(rid, fi, c, 'cannot read how check %d is decided (%d guarded sites, no single direct '
+                          'assignment)' % (k, len(gs)))
             continue
-        test = gs[0].test
-        outs = ev._ev(test, st.copy(), fi.module, fi, 0)
-        t = outs[0][0]
+        gs = [node]
         got = nnf(t, alg)
         want = nnf(spec[k], alg)
         if got == want:
